@@ -23,6 +23,9 @@ PACKAGES_ = None
 HEAVY_DEFAULTS = {'N': 3, 'n_cv': 1, 'n_sim': 1, 'verbose': False, 'n_jobs': 1, 'use_correction': False, 'k': 2}
 # optional parameters whose default None does not work for the stock objects
 OVERRIDE_IF_NONE = {'pattern_descriptor': 'index', 'rdm_descriptor': 'index', 'descriptor': 'cond', 'cv_descriptor': 'run'}
+OPTIONAL_VARIANTS = {'method': ['corr', 'corr_cov', 'cosine_cov', 'spearman', 'correlation', 'crossnobis', 'poisson_cv', 'mahalanobis'],
+                     'normalize': [False], 'random': [True], 'boot_type': ['rdm', 'pattern'], 'remove_mean': [True],
+                     'weighting': ['equal']}
 SCOPE = tuple(p + '.' for p in ['rsatoolbox.rdm', 'rsatoolbox.data', 'rsatoolbox.model', 'rsatoolbox.inference', 'rsatoolbox.util'])
 
 
@@ -252,11 +255,17 @@ def sweep(ctx, variant=0, report=None, only=None):
                         a = dict(base)
                         a[k] = i
                         attempts.append((sf, a))
+            # ... and, on the first-choice arguments, every listed value of enumerated optional parameters
+            extra_opts = [(p.name, v) for p in params if p.default is not inspect._empty
+                          for v in OPTIONAL_VARIANTS.get(p.name, [])]
+            attempts = [(sf, ch, None) for sf, ch in attempts[:14]] + [(selfs[0], {k: 0 for k in cand}, ov) for ov in extra_opts]
             ok = False
             last_err = None
-            for sf, choice in attempts[:14]:
+            for sf, choice, optval in attempts:
                 try:
                     kwargs = {k: cand[k][i]() for k, i in choice.items()}
+                    if optval is not None:
+                        kwargs[optval[0]] = optval[1]
                     for p in optional_heavy:
                         kwargs[p.name] = HEAVY_DEFAULTS[p.name]
                     for p in optional_none:
